@@ -169,3 +169,5 @@ H("C08", "css/validation", "VxH_C08_case", reach=["validated"], bounds="110 pool
 H("C08", "css/validation", "VxH_C08_whitespace", reach=["validated"], bounds="pooled declarations with a comment or extra white space inserted at one symbolic gap (between value tokens or inside function arguments) or at every gap")
 H("C08", "css/validation", "VxH_C08_isolation", reach=["validated"], bounds="[orphans:3, X, widows:4] where X is a pooled declaration damaged in one of 4 ways (unknown name, one token replaced by one of 7 junk tokens, junk appended, empty value)")
 H("C08", "css/validation", "VxH_C08_sides", mode="real", reach=["expanded"], bounds="margin / padding / border-width with 1..4 symbolic px lengths")
+H("C08", "html/tree", "VxH_C08_var", reach=["computed"], divergence=True, bounds="custom properties --a, --b (thorough --c) each undefined or one of 8 definitions (number, ident, var() of each other, with and without fallback); orphans: var(...) in 3 forms", quick={"maxdepth": 250})
+H("C08", "html/tree", "VxH_C08_var_shorthand", reach=["computed"], bounds="4 shorthand declarations using var(--m), --m one of {4px, 0, auto, red}, declared in a style attribute or in a <style> sheet; compared with the hand-substituted declaration")
